@@ -497,6 +497,9 @@ func (f *fileBackedFile) VirtualSetAttributes(ctx context.Context, in *Attribute
 	defer f.lock.Unlock()
 
 	if hasSizeBytes {
+		if f.referenceCount == 0 {
+			return StatusErrStale
+		}
 		if s := f.virtualTruncate(sizeBytes); s != StatusOK {
 			return s
 		}
